@@ -293,11 +293,11 @@ fn start_states(tier: Tier) -> Vec<FaultCfg> {
     let seed = crate::common::verif_seed();
     let b = |t: Option<usize>, s: Option<usize>| BuildOpts { n_trees: t, split_after: s, memory: None, seed, cancel_at: None };
     let metrics: Vec<(Metric, usize)> = match tier {
-        Tier::Quick => vec![(Metric::Euclidean, 2), (Metric::BqCosine, 3)],
+        Tier::Quick => vec![(Metric::Euclidean, 2), (Metric::BqCosine, 3), (Metric::DotProduct, 2), (Metric::Cosine, 3)],
         Tier::Thorough => vec![(Metric::Euclidean, 2), (Metric::Cosine, 3), (Metric::DotProduct, 2), (Metric::Manhattan, 2), (Metric::BqCosine, 3), (Metric::BqEuclidean, 2), (Metric::BqManhattan, 65)],
     };
     let bases: Vec<(usize, Option<BuildOpts>)> = match tier {
-        Tier::Quick => vec![(0, None), (4, Some(b(Some(2), Some(1)))), (6, Some(b(None, None)))],
+        Tier::Quick => vec![(0, None), (3, Some(b(Some(2), Some(1)))), (4, Some(b(Some(2), Some(1)))), (6, Some(b(None, None))), (6, Some(b(Some(3), Some(1))))],
         Tier::Thorough => vec![(0, None), (3, Some(b(Some(2), Some(1)))), (4, Some(b(Some(2), Some(1)))), (6, Some(b(None, None))), (6, Some(b(Some(3), Some(1)))), (9, Some(b(Some(2), Some(2))))],
     };
     let pendings: Vec<Vec<(u32, Option<usize>)>> = vec![
@@ -309,7 +309,7 @@ fn start_states(tier: Tier) -> Vec<FaultCfg> {
         vec![(0, None), (1, None), (u32::MAX, Some(4))],
     ];
     let faulted: Vec<BuildOpts> = match tier {
-        Tier::Quick => vec![b(Some(2), Some(1)), b(None, None)],
+        Tier::Quick => vec![b(Some(2), Some(1)), b(None, None), b(Some(3), Some(1))],
         Tier::Thorough => vec![b(Some(2), Some(1)), b(None, None), b(Some(1), Some(2)), b(Some(3), Some(1))],
     };
     let mut out = Vec::new();
